@@ -283,12 +283,30 @@ func (a *oauth2IntrospectionAuthenticator) getSubjectInformation(ctx heimdall.Co
 		return nil, err
 	}
 
+	// configured assertions take precedence over those available in the metadata
+	assertions := a.a.Merge(oauth2.Expectation{
+		TrustedIssuers: []string{metadata.Issuer},
+	})
+
 	if a.isCacheEnabled() {
 		cacheKey = a.calculateCacheKey(metadata.IntrospectionEndpoint, req.URL.String(), token)
 		if entry, err := cch.Get(ctx.AppContext(), cacheKey); err == nil {
-			logger.Debug().Msg("Reusing introspection response from cache")
+			var cachedResp oauth2.IntrospectionResponse
 
-			return entry, nil
+			// the cached response may have been stored by an authenticator instance with other (rule
+			// specific) assertions. So, it has to satisfy the assertions of this instance as well.
+			if err = json.Unmarshal(entry, &cachedResp); err == nil {
+				if err = cachedResp.Validate(assertions); err != nil {
+					return nil, errorchain.
+						NewWithMessage(heimdall.ErrAuthentication, "access token does not satisfy assertion conditions").
+						WithErrorContext(a).
+						CausedBy(err)
+				}
+
+				logger.Debug().Msg("Reusing introspection response from cache")
+
+				return entry, nil
+			}
 		}
 	}
 
@@ -300,11 +318,6 @@ func (a *oauth2IntrospectionAuthenticator) getSubjectInformation(ctx heimdall.Co
 	if err != nil {
 		return nil, err
 	}
-
-	// configured assertions take precedence over those available in the metadata
-	assertions := a.a.Merge(oauth2.Expectation{
-		TrustedIssuers: []string{metadata.Issuer},
-	})
 
 	if err = introspectResp.Validate(assertions); err != nil {
 		return nil, errorchain.
